@@ -516,7 +516,15 @@ def shift_inst(inst, k):
 
 
 # ------------------------------------------------------------------ rendering
-def render_val(v):
+def render_val(v, sp=None):
+    """sp: layout callback (white space) used INSIDE aggregates and typed values too: before and after every element and
+    around the parentheses - e.g. `(#1 ,#2)`, `( #2\n,#1 )`"""
+    if sp is not None:
+        t = v[0]
+        if t == "aggr":
+            return "(" + sp() + (sp() + "," + sp()).join(render_val(x, sp) for x in v[1]) + sp() + ")"
+        if t == "typed":
+            return f"{v[1]}({sp()}{render_val(v[2], sp)}{sp()})"
     t = v[0]
     if t == "tok":
         return v[1]
@@ -537,10 +545,11 @@ def render_val(v):
 
 def render_inst(inst, sp=lambda: ""):
     if inst.is_complex:
-        body = "(" + "".join(f"{n}({','.join(render_val(v) for v in vs)})" for n, vs in inst.parts) + ")"
+        body = "(" + sp().join(f"{n}{sp()}({sp()}" + f"{sp()},{sp()}".join(render_val(v, sp) for v in vs) + f"{sp()})"
+                               for n, vs in inst.parts) + sp() + ")"
     else:
         n, vs = inst.parts[0]
-        body = f"{n}{sp()}({sp()}" + f"{sp()},{sp()}".join(render_val(v) for v in vs) + f"{sp()})"
+        body = f"{n}{sp()}({sp()}" + f"{sp()},{sp()}".join(render_val(v, sp) for v in vs) + f"{sp()})"
     return (inst.comment + "\n" if inst.comment else "") + f"#{inst.id}{sp()}={sp()}{body}{sp()};"
 
 
@@ -834,10 +843,14 @@ SELECT_AGG_KINDS = ("AGG_SEL", "AGG_SELE", "AGG_SELL")
 
 def encode_val_at(v, attr):
     """value with the path markers the Session model wants: `Vs` = read through a SELECT (attribute or aggregate element),
-    `Vr` = read through a redeclared position; the markers are not part of the value (decode_words drops them)"""
+    `Vr` = read through a redeclared position, `Vn` = handed on to a member that is itself a select; the markers are not part of the value (decode_words drops them)"""
     if v[0] in ("null", "empty", "derived"):
         return encode_val(v)
-    if attr.base == "SELECT":
+    if attr.kind == "SELECT_N" and v[0] == "typed":
+        # sel_out = SELECT (sel_in, t1): a typed value belongs to the member select sel_in: the outer select's emitted
+        # STEPread_content hands it on to sel_in's STEPread (`Vn`)
+        w = f"Vs S{hx(v[1])} Vn " + encode_val(v[2])
+    elif attr.base == "SELECT":
         w = "Vs " + encode_val(v)
     elif attr.kind in SELECT_AGG_KINDS and v[0] == "aggr":
         w = " ".join([f"A{len(v[1])}"] + ["Vs " + encode_val(x) for x in v[1]])
@@ -862,7 +875,7 @@ def decode_words(words):
     """inverse of encode_inst over a word list; returns (Inst, rest)"""
     def val(ws):
         w = ws[0]
-        if w in ("Vs", "Vr"):
+        if w in ("Vs", "Vr", "Vn"):
             return val(ws[1:])
         if w == "N":
             return ("null",), ws[1:]
